@@ -55,6 +55,9 @@ pub struct RunEnv {
     /// hard I/O fault: (true = write/ENOSPC | false = read/EIO, after this many bytes
     /// transferred from/to regular files in the scratch directory)
     pub io_hard: Option<(bool, u64)>,
+    /// content of a file that already exists at the output path (an earlier analysis of the same
+    /// run, possibly longer than the new output); None = the path does not exist
+    pub stale_output: Option<Vec<u8>>,
 }
 
 pub struct RunResult {
@@ -77,6 +80,9 @@ pub fn binary(name: &str, real_rayon: bool) -> PathBuf {
 pub fn run_binary(name: &str, cwd: &Path, files: &[PathBuf], extra: &[&str], out_stem: &str, env: &RunEnv) -> RunResult {
     let out = cwd.join(format!("{out_stem}.csv"));
     let _ = std::fs::remove_file(&out);
+    if let Some(stale) = &env.stale_output {
+        std::fs::write(&out, stale).expect("write stale output file");
+    }
     let mut cmd = Command::new(binary(name, env.real_rayon));
     cmd.current_dir(cwd);
     for f in files {
@@ -132,7 +138,8 @@ pub fn run_binary(name: &str, cwd: &Path, files: &[PathBuf], extra: &[&str], out
     RunResult {
         success: o.status.success(),
         code: o.status.code(),
-        csv: std::fs::read(&out).ok(),
+        // a file that is still exactly the stale one was not written by this run
+        csv: std::fs::read(&out).ok().filter(|c| env.stale_output.as_ref() != Some(c)),
         stderr: String::from_utf8_lossy(&o.stderr).chars().take(600).collect(),
         hard_fired: fired.exists(),
     }
@@ -172,4 +179,15 @@ pub fn csv_tail(csv: &[u8]) -> Vec<u8> {
         }
     }
     csv[pos..].to_vec()
+}
+
+/// A plausible earlier output at the same path: `rows` rows of an older, longer analysis
+/// (0 rows = just a short header fragment).
+pub fn stale_csv(header: &str, row: &str, rows: usize) -> Vec<u8> {
+    let mut s = format!("# alpha-g-analysis 0.0.0\n# earlier run of the program\n{header}\n");
+    for k in 0..rows {
+        s.push_str(&row.replace("{k}", &(900_000 + k).to_string()));
+        s.push('\n');
+    }
+    s.into_bytes()
 }
